@@ -119,6 +119,11 @@ class C07Bounded(Bounded):
                      [setp(RULE, ("detection",), None, delete=True), FILT, RULE],
                      # log source attributes of unhashable types (empty containers pass the type checks) together with a filter
                      [setp(RULE, ("logsource", "category"), []), FILT], [FILT, setp(RULE, ("logsource", "definition"), {})], [setp(RULE, ("logsource", "service"), []), setp(FILT, ("filter", "rules"), "any")]]
+        # rule references of a filter that YAML does not read as text (an unquoted numeric rule name, null, a date ...) next to a rule the filter's log source covers
+        import datetime as _dt
+        for ref in (4625, None, 1.5, True, ["n"], _dt.date(2024, 1, 2), {"a": 1}):
+            docs_sets.append([RULE, setp(FILT, ("filter", "rules"), [ref])])
+            docs_sets.append([setp(FILT, ("filter", "rules"), ["zz", ref]), RULE])
         for di, ds in enumerate(docs_sets):
             ev += 1
             nontriv += 1
@@ -147,5 +152,5 @@ class C07Bounded(Bounded):
         if os.environ.get("C07_DUMP"):
             json.dump(sorted(set(escapes)), open(os.environ["C07_DUMP"], "w"), indent=0)
         return {"evaluations": ev, "distinct_nontrivial": nontriv, "failures": fails[:30], "failure_counts": seen, "escaping_signatures": len(set(escapes)),
-                "bound": f"5 valid documents x every path x (delete + {len(WRONG)} wrong-typed / out-of-range values); 5 collection streams", "rule": "distinct (document, path, value); non-trivial = strict loading raises",
+                "bound": f"5 valid documents x every path x (delete + {len(WRONG)} wrong-typed / out-of-range values); {len(docs_sets)} collection streams", "rule": "distinct (document, path, value); non-trivial = strict loading raises",
                 "samples": samples or [{"document": "RULE", "mutation": "level = 'bogus'"}], "exhaustive": tier != "quick"}
